@@ -66,18 +66,47 @@ def run_impl_dedup(rows, chunks):
     else:
         # add_path refuses non-finite values and non-positive feeds (C10): arbitrary float32 trajectories are recorded directly
         lp = LaserPath(_x=arr[:, 0].copy(), _y=arr[:, 1].copy(), _z=arr[:, 2].copy(), _f=arr[:, 3].copy(), _s=arr[:, 4].copy())
+    SENT = 0xFFFFFFFF          # "this view raised / has an impossible shape": a bit pattern no canonicalised input carries
+
+    def view(get):
+        try:
+            v = get()
+        except Exception:
+            return [SENT]
+        if v is None:
+            return [SENT]
+        return [bits(t) for t in np.atleast_1d(np.asarray(v)).ravel()]
+
+    def scalar(get):
+        try:
+            v = get()
+        except Exception:
+            return SENT
+        if v is None:
+            return None
+        a = np.asarray(v)
+        return bits(a.ravel()[0]) if a.size == 1 else SENT
+
     with np.errstate(all='ignore'):
-        pts = lp.points
-        o_points = [] if pts.ndim != 2 else [[bits(v) for v in r] for r in pts.T]
-        ox = [bits(v) for v in lp.x]
-        oy = [bits(v) for v in lp.y]
-        oz = [bits(v) for v in lp.z]
-        last = [None if v is None else bits(v) for v in (lp.lastx, lp.lasty, lp.lastz)]
-        px, py, pz = lp.path3d
-        o_path = [[bits(a), bits(b), bits(c)] for a, b, c in zip(px, py, pz)]
-        # `path` must be the xy part of path3d
-        qx, qy = lp.path
-        assert [bits(v) for v in qx] == [r[0] for r in o_path] and [bits(v) for v in qy] == [r[1] for r in o_path]
+        try:
+            pts = np.asarray(lp.points)
+            if pts.ndim == 2:
+                o_points = [[bits(v) for v in r] for r in pts.T]
+            else:
+                o_points = [] if pts.size == 0 else [[SENT] * 5]
+        except Exception:
+            o_points = [[SENT] * 5]
+        ox, oy, oz = view(lambda: lp.x), view(lambda: lp.y), view(lambda: lp.z)
+        last = [scalar(lambda: lp.lastx), scalar(lambda: lp.lasty), scalar(lambda: lp.lastz)]
+        try:
+            px, py, pz = (np.atleast_1d(np.asarray(a)).ravel() for a in lp.path3d)
+            o_path = [[bits(a), bits(b), bits(c)] for a, b, c in zip(px, py, pz)] if len(px) == len(py) == len(pz) else [[SENT] * 3]
+            # `path` must be the xy part of path3d
+            qx, qy = (np.atleast_1d(np.asarray(a)).ravel() for a in lp.path)
+            if not ([bits(v) for v in qx] == [r[0] for r in o_path] and [bits(v) for v in qy] == [r[1] for r in o_path]):
+                o_path = o_path + [[SENT] * 3]
+        except Exception:
+            o_path = [[SENT] * 3]
     return dict(points=o_points, x=ox, y=oy, z=oz, last=last, path=o_path)
 
 
